@@ -526,18 +526,23 @@ func ruleParserCursor(c *Ctx) {
 		return
 	}
 	H := `strings.HasPrefix(parser.s,"<>") == true`
+	hRe := `^strings\.HasPrefix\(parser\.s,"<>"\) == true$`
 	hasTest := false
 	allInstrs(f, func(in ssa.Instruction) {
 		if cc := callCommon(in); cc != nil {
-			if cal := staticCallee(cc); cal != nil && cal.Pkg != nil && cal.Pkg.Pkg.Path() == "strings" && cal.Name() == "HasPrefix" && len(cc.Args) == 2 && describe(cc.Args[0]) == "parser.s" {
+			if cal := staticCallee(cc); cal != nil && cal.Pkg != nil && cal.Pkg.Pkg.Path() == "strings" && (cal.Name() == "HasPrefix" || cal.Name() == "CutPrefix") && len(cc.Args) == 2 && describe(cc.Args[0]) == "parser.s" {
 				if k, ok := constString(cc.Args[1]); ok && k == "<>" {
 					hasTest = true
+					if cal.Name() == "CutPrefix" {
+						H = `strings.CutPrefix(parser.s,"<>")#1 == true`
+						hRe = `^strings\.CutPrefix\(parser\.s,"<>"\)#1 == true$`
+					}
 				}
 			}
 		}
 	})
 	if !hasTest {
-		R.Und("(*parser).parseReversePath/null path recognised as a prefix", c.P.Pos(f.Pos()), "no strings.HasPrefix(p.s, \"<>\") test found: how the null reverse-path is recognised is not decided (a test for equality refuses \"<> PARAM=...\", the reverse-path of every bounce that carries parameters)")
+		R.Und("(*parser).parseReversePath/null path recognised as a prefix", c.P.Pos(f.Pos()), "no strings.HasPrefix/CutPrefix(p.s, \"<>\") test found: how the null reverse-path is recognised is not decided (a test for equality refuses \"<> PARAM=...\", the reverse-path of every bounce that carries parameters)")
 		return
 	}
 	nNull := 0
@@ -552,7 +557,7 @@ func ruleParserCursor(c *Ctx) {
 		r := a.(*ssa.Return)
 		if k, ok := constString(returnedValues(r)[0]); ok && k == "" {
 			nNull++
-			c.obFactMatch("null path only for a \"<>\" prefix", a, `^strings\.HasPrefix\(parser\.s,"<>"\) == true$`, "the null reverse-path is returned although the argument was not seen to start with \"<>\"")
+			c.obFactMatch("null path only for a \"<>\" prefix", a, hRe, "the null reverse-path is returned although the argument was not seen to start with \"<>\"")
 			// on the way to this return the cursor drops exactly that prefix
 			dropped := false
 			for _, st := range allStoresTo(f, "s") {
